@@ -43,6 +43,13 @@ class W(pg.Object):
   b: T.Any() = None
 
 
+class NC(pg.Object):
+  """Opts out of symbolic comparison: == / hash are by identity."""
+  use_symbolic_comparison = False
+  x: T.Any() = None
+  y: T.Any() = None
+
+
 class Typed(pg.Object):
   i: T.Int(min_value=0, max_value=9) = 1
   s: T.Str() = 'a'
@@ -60,6 +67,7 @@ class Req(pg.Object):
   n: T.Any() = None
 
 
-CLASSES = {c.__name__: c for c in (P, Q, R, W, Typed, Req)}
+CLASSES = {c.__name__: c for c in (P, Q, R, W, NC, Typed, Req)}
 UNTYPED = ('P', 'Q', 'R', 'W')
-FIELDS = {'P': ('x', 'y'), 'Q': ('x', 'y'), 'R': ('x', 'y', 'z'), 'W': ('a', 'b')}
+FIELDS = {'P': ('x', 'y'), 'Q': ('x', 'y'), 'R': ('x', 'y', 'z'), 'W': ('a', 'b'),
+          'NC': ('x', 'y')}
